@@ -303,6 +303,8 @@ def run(case, replay=None):
                 xl_, xu_ = np.array(c["xl"], dtype=float), np.array(c["xu"], dtype=float)
                 Xn = np.clip(Xp[rs.permutation(len(Xp))] + rs.uniform(-0.2, 0.2, size=Xp.shape) * (xu_ - xl_), xl_, xu_)
                 Xn[::3] = Xp[::3]          # some trials equal to their targets (exact ties)
+                if len(Xn) >= 4 and not c.get("clones"):
+                    Xn[-1] = Xn[1]         # two user-made infills coincide exactly (each may beat its own target)
                 if c.get("clones"):
                     Xn = Xp.copy()
                 infills = Population.new("X", Xn)
